@@ -128,6 +128,11 @@ class Tr:
                     raise Untranslatable("operator %s on %s, %s" % (type(e.op).__name__, a.kind, b.kind))
                 return self.expr(e.right, env, after_right)
             return self.expr(e.left, env, after_left)
+        if isinstance(e, (ast.BoolOp, ast.Compare)) or (isinstance(e, ast.UnaryOp) and isinstance(e.op, ast.Not)):
+            # a pure test as a value (`ok = not a or x in a`): kept as its formula and substituted where the local is tested.
+            # Python's and / or return an operand, not a bool, so such a value may ONLY be used for its truth value: every
+            # other use of kind "cond" (arithmetic, text, argument, return) is refused by the kind checks.
+            return k(V("cond", const=None, term=None, prefix=self.cond(e, env)))
         if isinstance(e, ast.Call):
             return self.call(e, env, k)
         if isinstance(e, ast.JoinedStr):
@@ -286,6 +291,8 @@ class Tr:
             return ("not", self.cond(e.operand, env))
         if isinstance(e, ast.Name) and e.id in env and env[e.id].kind == "acc":
             return ("not", ("atom", "%s.isEmpty" % env[e.id].term))          # truth value of a sequence / None
+        if isinstance(e, ast.Name) and e.id in env and env[e.id].kind == "cond":
+            return env[e.id].prefix                                          # a local bound to a pure test: its formula
         if isinstance(e, ast.Compare) and len(e.ops) == 1:
             op, l, r = e.ops[0], e.left, e.comparators[0]
             lv = self.pure(l, env)
